@@ -22,6 +22,8 @@ struct call { int kind; /* '+','-','v','w' */ int ret; int inv, res; int64_t dl;
 #define MAXCALLS 16
 static struct call calls[MAXCALLS]; static int ncalls, stamp;
 static int zero_seen;
+static int cdata[H_MAXT];        /* plain client data written by a thread right before its decrements */
+static int decrementer[H_MAXT];
 
 static int ctr_setup (const char *program) {
 	int t, k, n, minus = 0, plus = 0, untimed = 0, worst;
@@ -44,6 +46,7 @@ static int ctr_setup (const char *program) {
 	if (untimed && minus != init_value + plus) return -1;
 	if (init_value + plus == 0) return -1;
 	nplus = plus;
+	for (t = 0; t < n; t++) { decrementer[t] = 0; for (k = 0; k < h_nops[t]; k++) if (!strcmp (h_op[t][k], "-")) decrementer[t] = 1; }
 	return n;
 }
 static void ctr_init (void) { c = nsync_counter_new (init_value); if (nplus == 0) plus_done = 1; h_install_rwlock_listener (); }
@@ -73,7 +76,7 @@ static void ctr_thread (int me) {
 		if ((o[0] == 'w' || o[0] == 'n') && !awaited) { mc_await (&plus_done); awaited = 1; }
 		switch (o[0]) {
 		case '+': i = begin_call ('+', 0); r = (int) nsync_counter_add (c, 1); end_call (i, r, 0, 0); if (plus_finished ()) mc_flag_set (&plus_done, 1); break;
-		case '-': i = begin_call ('-', 0); r = (int) nsync_counter_add (c, -1); end_call (i, r, 0, 0); break;
+		case '-': cdata[me] = 1; i = begin_call ('-', 0); r = (int) nsync_counter_add (c, -1); end_call (i, r, 0, 0); break;
 		case 'v': i = begin_call ('v', 0); r = (int) nsync_counter_value (c); end_call (i, r, 0, 0); break;
 		case 'w': {
 			int64_t dl = o[1] == 'd' ? H_D1 : o[1] == 'p' ? H_PAST : MC_NEVER;
@@ -83,6 +86,10 @@ static void ctr_thread (int me) {
 			r = (int) nsync_counter_wait (c, h_time (dl));
 			b = mc_blocks ();
 			end_call (i, r, z, b);
+			/* C03: the decrement that zeroes the counter happens before its waiters' return.  Waits start
+			   only after every '+' is done, so a wait that returns 0 saw the final zero: every decrement
+			   (the zeroing one included) precedes it and what those threads wrote before must be visible. */
+			if (r == 0) { int t; for (t = 0; t < h_nthreads; t++) if (decrementer[t]) mc_assert (cdata[t] == 1, "data written before the decrements is not visible after nsync_counter_wait returned 0"); }
 			break; }
 		case 'n': {
 			struct nsync_waitable_s w; struct nsync_waitable_s *pw = &w; int x;
